@@ -6,7 +6,7 @@ PID = "C14"
 RULE = ("byte strings assembled from lines: file names of length 1, 2 and longer over arbitrary bytes (0x85, 0xA0, 0x0B, NUL, "
         "non-UTF-8), each of the 17+ commands with absent / empty / ASCII / UTF-8 / non-UTF-8 arguments, tabs and several spaces "
         "after the command, leading blanks, blank and blank-only lines, '@' alone, unknown commands; with and without a final "
-        "newline; every line is also parsed alone; non-trivial = >= 2 non-blank lines or a byte >= 0x80")
+        "newline; every line is also parsed alone; plus EVERY sequence of <= 4 (thorough 5) tokens from {@, a, blank, tab, newline, 0xA0, @ignore, @cwd, @name}; non-trivial = >= 2 non-blank lines or a byte >= 0x80")
 FUNCTIONAL = True
 ASCII_WS = (9, 10, 12, 13, 32)
 
@@ -27,6 +27,13 @@ def generate(rng, tier):
         ls = [plgen.line(rng) for _ in range(k)]
         ls = [l.replace(b"\n", b"") for l in ls]
         texts.append(b"\n".join(ls) + (b"\n" if rng.random() < 0.6 else b""))
+    # small scope, exhaustively: every sequence of <= 4 (thorough 5) tokens from a set holding each kind of byte the scanner
+    # and the command split look at
+    import itertools
+    toks = [b"@", b"a", b" ", b"\t", b"\n", b"\xa0", b"@ignore", b"@cwd", b"@name"]
+    for L in range(1, (5 if tier == "quick" else 6)):
+        for tup in itertools.product(toks, repeat=L):
+            texts.append(b"".join(tup))
     for t in texts:
         lines = t.split(b"\n")
         nonblank = [l for l in lines if any(c not in ASCII_WS for c in l)]
